@@ -77,6 +77,27 @@ def run(ctx):
         ev = recs[hw - 1] if hw - 1 < len(recs) else None
         ctx.violation(classify([{k: v for k, v in r.items() if k != "seq"} for r in h], ev), dict(history=h, rejected_at=ev))
         todo = todo[bad + 1:]
+    if not ctx.quick and ctx.replay_only is None:
+        # binding self-test on a copy: flipping the reply of one Add must make its history unexplainable
+        for h in hs:
+            idx = [i for i, r in enumerate(h) if r["ev"] == "Ret" and i > 0 and any(
+                c["ev"] == "Call" and c["th"] == r["th"] and c["op"] == "Add" for c in h[max(0, i - 6):i])]
+            calls = {}
+            flip = None
+            for i, r in enumerate(h):
+                if r["ev"] == "Call":
+                    calls[r["th"]] = r
+                elif r["ev"] == "Ret" and calls.get(r["th"], {}).get("op") == "Add":
+                    flip = i
+                    break
+            if flip is not None:
+                bad = [{k: v for k, v in r.items() if k != "seq"} for r in h]
+                bad[flip] = dict(bad[flip], ok=not bad[flip]["ok"])
+                ok, hw, _ = vlib.validate_trace(ctx, "TraceCMap", "TraceCMap.cfg", bad, dfs=True)
+                if ok:
+                    raise vlib.Infra("binding self-test failed: a history with a flipped Add reply was accepted")
+                ctx.extra["binding_selftest"] = "rejected (Add reply flipped)"
+                break
     for h in hs:
         keys = {}
         for r in h:
